@@ -433,6 +433,9 @@ func ExemptWhere(a S, cond func(i int) bool, stickyAfter bool) S {
 // scale it with their length: running sums and recursions accumulate one rounding per step).
 var Rel = 1e-9
 
+// Floor is the magnitude below which a difference is rounding for the output being compared (0: max(Scale, 1)).
+var Floor float64
+
 // LongSeries is set while a long (thousands of values) series is judged: exact equalities of computed quantities are then ties.
 var LongSeries bool
 
@@ -442,5 +445,9 @@ func Close(got, want float64) bool {
 		return false
 	}
 	d := math.Abs(got - want)
-	return d <= Rel*math.Max(Scale, math.Max(math.Abs(want), 1))
+	fl := Floor
+	if fl == 0 {
+		fl = math.Max(Scale, 1)
+	}
+	return d <= Rel*math.Max(fl, math.Abs(want))
 }
